@@ -60,6 +60,11 @@ package runtime
 //@   ensures[bytes-record] err == nil && VarintVal(dAtA, 0) & 7 == 2 ==> n == VarintEnd(dAtA, VarintEnd(dAtA, 0) + 1) + 1 + int(VarintVal(dAtA, VarintEnd(dAtA, 0) + 1))
 //@   ensures[fixed32-record] err == nil && VarintVal(dAtA, 0) & 7 == 5 ==> n == VarintEnd(dAtA, 0) + 1 + 4
 //@   ensures[no-other-wiretype] err == nil ==> VarintVal(dAtA, 0) & 7 <= 5 && VarintVal(dAtA, 0) & 7 != 4
+//@   note well-formed non-group first records are accepted (tag and value varints terminate within 10 bytes inside the buffer)
+//@   ensures[varint-record-accepted] VarintEnd(dAtA, 0) < len(dAtA) && dAtA[VarintEnd(dAtA, 0)] < 0x80 && VarintVal(dAtA, 0) & 7 == 0 && VarintEnd(dAtA, VarintEnd(dAtA, 0) + 1) < len(dAtA) && dAtA[VarintEnd(dAtA, VarintEnd(dAtA, 0) + 1)] < 0x80 ==> err == nil
+//@   ensures[fixed64-record-accepted] VarintEnd(dAtA, 0) < len(dAtA) && dAtA[VarintEnd(dAtA, 0)] < 0x80 && VarintVal(dAtA, 0) & 7 == 1 ==> err == nil
+//@   ensures[fixed32-record-accepted] VarintEnd(dAtA, 0) < len(dAtA) && dAtA[VarintEnd(dAtA, 0)] < 0x80 && VarintVal(dAtA, 0) & 7 == 5 ==> err == nil
+//@   ensures[bytes-record-accepted] VarintEnd(dAtA, 0) < len(dAtA) && dAtA[VarintEnd(dAtA, 0)] < 0x80 && VarintVal(dAtA, 0) & 7 == 2 && VarintEnd(dAtA, VarintEnd(dAtA, 0) + 1) < len(dAtA) && dAtA[VarintEnd(dAtA, VarintEnd(dAtA, 0) + 1)] < 0x80 && VarintVal(dAtA, VarintEnd(dAtA, 0) + 1) < 0x1000000000000 ==> err == nil
 //@   note group records (wire types 3/4): this unbounded contract gives safety, progress and termination; the record length of group records is checked by the bounded template contracts Skip#group-* below
 
 //@ func Skip#group-flat
